@@ -244,7 +244,11 @@ def lean_build_and_audit(ctx):
             problems.append("translator decls.py failed:\n" + out)
             return 0, 0, {}, problems
     target = f"LruMem.Props.{ctx.prop}"
-    rc, out = run(["lake", "build", target, "lrudriver"], cwd=lean, timeout=3000)
+    # a property's theorems may continue in Props/<id>b.lean, Props/<id>c.lean, …
+    extra = sorted(f[:-5] for f in os.listdir(os.path.join(lean, "LruMem", "Props"))
+                   if re.fullmatch(ctx.prop + r"[a-z]\.lean", f))
+    targets = [target] + [f"LruMem.Props.{e}" for e in extra]
+    rc, out = run(["lake", "build"] + targets + ["lrudriver"], cwd=lean, timeout=3000)
     if rc != 0:
         problems.append("lake build failed:\n" + out[-6000:])
         return 0, 0, {}, problems
@@ -256,12 +260,14 @@ def lean_build_and_audit(ctx):
                 for i, l in enumerate(txt.splitlines()):
                     if FORBIDDEN.search(l):
                         problems.append(f"forbidden construct in {f}:{i+1}: {l.strip()}")
-    props_file = os.path.join(lean, "LruMem", "Props", f"{ctx.prop}.lean")
-    src = strip_comments(open(props_file).read())
-    thms = re.findall(r"^theorem\s+([A-Za-z0-9_.']+)", src, flags=re.M)
+    thms = []
+    for t in targets:
+        props_file = os.path.join(lean, "LruMem", "Props", t.split(".")[-1] + ".lean")
+        src = strip_comments(open(props_file).read())
+        thms += re.findall(r"^theorem\s+([A-Za-z0-9_.']+)", src, flags=re.M)
     audit = os.path.join(ctx.work, "Audit.lean")
     with open(audit, "w") as f:
-        f.write(f"import {target}\nopen LruMem\n")
+        f.write("".join(f"import {t}\n" for t in targets) + "open LruMem\n")
         for t in thms:
             f.write(f"#print axioms {t}\n")
     rc, out = run(["lake", "env", "lean", audit], cwd=lean, timeout=600)
@@ -285,11 +291,12 @@ def lean_build_and_audit(ctx):
         else:
             discharged += 1
     if ctx.tier == "thorough":
-        rc, out = run(["lake", "env", "leanchecker", target], cwd=lean, timeout=3000)
-        if rc != 0:
-            problems.append("leanchecker rejected " + target + ":\n" + out[-3000:])
-        else:
-            ctx.notes.append("leanchecker re-checked " + target)
+        for t in targets:
+            rc, out = run(["lake", "env", "leanchecker", t], cwd=lean, timeout=3000)
+            if rc != 0:
+                problems.append("leanchecker rejected " + t + ":\n" + out[-3000:])
+            else:
+                ctx.notes.append("leanchecker re-checked " + t)
     return len(thms), discharged, axioms, problems
 
 
